@@ -36,7 +36,7 @@ FAMILY = Family(
         ModelCfg("n2o2e1", consts(2, 2, 1, False), emit=True, check=False, replay_kw={"fast": False}),
         ModelCfg("n2o2e1f", consts(2, 2, 1, True), emit=True, check=False, replay_kw={"fast": True}),
         ModelCfg("n2o3e2", consts(2, 3, 2, False), emit=True, check=False, replay_kw={"fast": False},
-                 max_scenarios=6000),
+                 max_scenarios=3500),
         # three contenders (holder + two queued waiters), acquire / release only: every choice edge
         ModelCfg("n3o2e1-ar", consts(3, 2, 1, False, ops='{"acq", "rel"}', env='{"cancel"}'), emit=True,
                  check=False, replay_kw={"fast": False}),
@@ -46,7 +46,7 @@ FAMILY = Family(
         ModelCfg("n2o3e2-retry", consts(2, 3, 2, False, ops='{"acq", "rel"}', env='{"cancel"}', retry=True),
                  emit=True, replay_kw={"fast": False, "retry": True}),
         ModelCfg("n3o3e2-retry", consts(3, 3, 2, False, ops='{"acq", "rel", "nowait"}', retry=True),
-                 simulate=1500, check=False, replay_kw={"fast": False, "retry": True}),
+                 simulate=800, check=False, replay_kw={"fast": False, "retry": True}),
         # exhaustive model check of the larger configuration, sampled behaviours replayed
         ModelCfg("n3o2e2", consts(3, 2, 2, False), tiers=("quick",), simulate=1500,
                  replay_kw={"fast": False}),
